@@ -35,6 +35,7 @@ import numpy as np
 
 from . import c09_gen as G
 from .common import fr, quiet_fd, unfr
+from .translate_c09 import gen_sim_step
 
 RES_TOL = 1e-7  # residual tolerance relative to the row scale (solver output)
 TRAJ_TOL = 1e-6  # trajectories that went through two different solvers
@@ -1202,7 +1203,7 @@ def run(c):
         "a non-zero Modelica start attribute takes precedence over initial_state.csv (documented in "
         "SimulationProblem.initialize): initial-state files are generated only for states without start attribute",
     ]
-    c.prove()
+    c.prove(extra=gen_sim_step(c))  # + the simulation bookkeeping translated from the source
     rng = c.rng
     n_plain = c.n(18, 120)
     n_io = c.n(18, 120)
@@ -1230,7 +1231,7 @@ def run(c):
 
 def replay(c, rp):
     logging.getLogger("rtctools").setLevel(logging.CRITICAL)
-    c.prove()
+    c.prove(extra=gen_sim_step(c))  # + the simulation bookkeeping translated from the source
     plain, io, xs = [], [], []
     for f in rp.get("failures", []) + rp.get("correspondence_disagreements", []) + rp.get("disagreements", []):
         case = f.get("case") or {}
